@@ -898,6 +898,12 @@ func genC15(r *vh.Runner) {
 	for i := 0; i < nq; i++ {
 		r.Case(fmt.Sprintf("queued-writes/%d", i), map[string]any{"rep": i}, func(c *vh.Case) { queuedWritesRun(r, c, i) })
 	}
+	nh := r.Pick(12, 600)
+	for i := 0; i < nh; i++ {
+		r.Case(fmt.Sprintf("handshake-replies-from-a-third-address/%d", i), map[string]any{"rep": i}, func(c *vh.Case) {
+			c.Bubble(func() { handshakeSourceRun(r, c, i) })
+		})
+	}
 	n := r.Pick(120, 30000)
 	for i := 0; i < n; i++ {
 		r.Case(fmt.Sprintf("roam/%d", i), map[string]any{"history": i}, func(c *vh.Case) {
@@ -1234,6 +1240,68 @@ func queuedWritesRun(r *vh.Runner, c *vh.Case, i int) {
 			}
 		}
 	}
+	// one Write larger than a packet (three fragments): the socket write of the
+	// first fragment is held, the client roams meanwhile, the remaining
+	// fragments go to the new address
+	{
+		release := make(chan struct{})
+		entered := w.SrvEP.HoldNextWrite(release)
+		tail := 700 + rng.Intn(600)
+		big := make([]byte, 2*transport.MaxPlaintextSize+tail)
+		mark := w.Net.LogLen()
+		wdone := make(chan struct{})
+		go func() { defer close(wdone); s.h.Write(big) }()
+		select {
+		case <-entered:
+		case <-time.After(5 * time.Second):
+			close(release)
+			c.Inconclusive("the first fragment never reached the socket")
+			return
+		}
+		nb := simnet.Addr(52600+rng.Intn(300), 3000+rng.Intn(50000))
+		s.ep.SetSource(nb)
+		s.cl.WriteMsg(build(r.Seed, msgID{0, 8, 8, 2}, hdrLen+8))
+		moved := false
+		for k := 0; k < 400 && !moved; k++ {
+			if ra := s.h.VerifSession().Remote; ra != nil && ra.String() == nb.String() {
+				moved = true
+			} else {
+				time.Sleep(5 * time.Millisecond)
+			}
+		}
+		close(release)
+		select {
+		case <-wdone:
+		case <-time.After(10 * time.Second):
+			c.Inconclusive("the large write did not return")
+			return
+		}
+		time.Sleep(20 * time.Millisecond)
+		if !moved {
+			c.Inconclusive("the server did not record the new address within 2 s")
+			return
+		}
+		r.Count("evaluations", 1)
+		r.Count("roams_during_a_multi_packet_write", 1)
+		toOld := 0
+		for _, ev := range w.Net.LogSince(mark) {
+			if ev.Kind != "tx" || ev.Src != w.SrvAddr.String() || ev.Dst == nb.String() {
+				continue
+			}
+			if ev.Len == 16+tail+32 {
+				c.Violate("C15:fragment-sent-to-the-old-address-after-roaming:server-follows-client", map[string]any{"fragment": "last", "sent_to": ev.Dst, "new_address": nb.String()})
+				return
+			}
+			if ev.Len == 16+transport.MaxPlaintextSize+32 {
+				toOld++
+			}
+		}
+		if toOld > 1 { // the held fragment had its address before the roam
+			c.Violate("C15:fragment-sent-to-the-old-address-after-roaming:server-follows-client", map[string]any{"full_size_fragments_to_old_address": toOld, "new_address": nb.String()})
+			return
+		}
+		na = nb
+	}
 	// second phase: the server sends without pause while the client roams
 	// several times, changing IP and port each time (sends are in flight during
 	// the address updates; every datagram must go to an address the client has
@@ -1275,6 +1343,60 @@ func queuedWritesRun(r *vh.Runner, c *vh.Case, i int) {
 			return
 		}
 	}
+}
+
+// handshakeSourceRun: while the handshake runs, a verbatim copy of each server
+// reply reaches the client from a third address before the genuine datagram
+// does. No packet under the session's keys ever came from that address: the
+// client's handshake messages and its session traffic go to the address it
+// dialled.
+func handshakeSourceRun(r *vh.Runner, c *vh.Case, i int) {
+	rng := vh.NewRand(r.Seed, "c15-hssrc", i)
+	cv := &transport.VerifyConfig{}
+	w := fix.NewWorld(true, cv, nil)
+	cv.Store = w.PKI.Store()
+	defer w.Server.Close()
+	id := w.PKI.Issue(certs.RawStringName("client"))
+	hidden := i%2 == 1
+	cl, ep := w.NewClient(id, hidden, 3*time.Second)
+	caddr := ep.Source()
+	third := simnet.Addr(58000+rng.Intn(500), 2000+rng.Intn(60000))
+	if rng.Bool() {
+		third = &net.UDPAddr{IP: w.SrvAddr.IP, Port: w.SrvAddr.Port + 1 + rng.Intn(50)}
+	}
+	copies := 0
+	w.Net.SetPolicy(func(d *simnet.Datagram) []simnet.Delivery {
+		genuine := simnet.Delivery{Data: d.Data, Src: d.Src, Dst: d.Dst, Tag: "genuine"}
+		if sameUDP(d.Dst, caddr) && len(d.Data) > 0 && d.Data[0] < 0x10 {
+			copies++
+			return []simnet.Delivery{{Data: append([]byte(nil), d.Data...), Src: third, Dst: d.Dst, Tag: "copy-from-third-address"}, genuine}
+		}
+		return []simnet.Delivery{genuine}
+	})
+	err := cl.Handshake()
+	w.Net.SetPolicy(nil)
+	defer cl.Close()
+	r.Count("evaluations", 1)
+	r.Count("handshakes_with_replies_copied_from_a_third_address", 1)
+	if err == nil {
+		cl.WriteMsg(build(r.Seed, msgID{0, 0, 0, 1}, hdrLen+16))
+		bub.Settle(10 * time.Millisecond)
+	}
+	for _, ev := range w.Net.LogSince(0) {
+		if ev.Kind == "tx" && ev.Src == caddr.String() && ev.Dst != w.SrvAddr.String() {
+			c.Violate("C15:client-sends-to-an-address-it-never-dialled:during-handshake", map[string]any{"sent_to": ev.Dst, "dialled": w.SrvAddr.String(), "hidden": hidden, "handshake_error": fmt.Sprint(err), "first_byte": ev.Data[0]})
+			return
+		}
+	}
+	if cs, ok := cl.VerifSession(); ok && err == nil && cs.Remote != nil && cs.Remote.String() != w.SrvAddr.String() {
+		c.Violate("C15:client-session-peer-is-an-address-it-never-dialled", map[string]any{"peer": cs.Remote.String(), "dialled": w.SrvAddr.String(), "hidden": hidden})
+		return
+	}
+	if copies == 0 {
+		c.Inconclusive("no server reply seen")
+		return
+	}
+	r.Nontrivial(fmt.Sprintf("hssrc|%d", i))
 }
 
 // tamperBySizeRun: messages of every length around the 200-byte blocks of the
